@@ -541,7 +541,7 @@ func TestVerifC21(t *testing.T) {
 			runOne(cs, false)
 		}
 		r := vNewRand(vSeed())
-		n := vN(300, 3000)
+		n := vN(250, 3000)
 		for i := 0; i < n; i++ {
 			runOne(c21Gen(r.Fork()), true)
 		}
